@@ -40,6 +40,56 @@ def _instants(ctx: Ctx) -> list[tuple[str, int]]:
     return out
 
 
+def _seed_envelope_source(ctx: Ctx, base_id: int) -> list[dict]:
+    """Second cache source named by the statement: previously retrieved seed keys (no root key loaded).  The DC's clock
+    may be ahead of the client's (skew), so the cached seed envelope can sit at a later position than the client's now."""
+    import dpapi_ng
+    import dpapi_ng._client as client
+    from dpapi_ng._blob import DPAPINGBlob
+
+    from .. import blobref, refdc, sdref
+
+    refdc.ensure_ntlm_users()
+    rng = ctx.rng
+    rows = []
+    user = f"{refdc.DOMAIN}\\{refdc.USER}"
+    for k in range(ctx.pick(120, 1500)):
+        l0 = 361 + rng.randrange(20)
+        a, b = rng.randrange(0, 31), rng.randrange(32)
+        skew = rng.choice([(0, 0), (0, 1), (1, 0), (1, 0), (3, 0), (0, 5), (2, -3)])
+        da, db = min(31, a + skew[0]), min(31, max(0, b + skew[1]))
+        if (da, db) < (a, b):
+            da, db = a, b
+        ft = ((l0 * 32 + a) * 32 + b) * BASE + rng.randrange(BASE)
+        h = rng.choice(["SHA1", "SHA256", "SHA384", "SHA512"])
+        rkid = uuid.UUID(bytes=rng.randbytes(16))
+        dc = refdc.DC()
+        dc.add_root_key(rkid, refdc.RootKeyInfo(rng.randbytes(64), h, "DH"))
+        dc.now = (l0, da, db)
+        cache = dpapi_ng.KeyCache()
+        ks = dc.keyset(rkid, sdref.target_sd(SID), l0)
+        prime = blobref.make_blob(h, ks.l2(da, db), rkid, l0, da, db, SID, b"prime", rng.randbytes)
+        row = {"id": base_id + k, "kind": f"seed-source skew {skew}", "t": limbs(ft), "t2": limbs(ft), "l0": -1, "l1": -1, "l2": -1, "res": "blob", "flavour": "sync"}
+        try:
+            with refdc.Network(dc):
+                dpapi_ng.ncrypt_unprotect_secret(prime, server="dc01", username=user, password=refdc.PASSWORD, auth_protocol="ntlm", cache=cache)
+            n_before = len(dc.getkey_log)
+            with taps.clock(client, (ft - EPOCH) * 100), taps.KdfTap(budget=300, record=False), refdc.Network(dc):
+                blob = dpapi_ng.ncrypt_protect_secret(b"x", SID, root_key_identifier=rkid, cache=cache, server="dc01", username=user,
+                                                      password=refdc.PASSWORD, auth_protocol="ntlm")
+            if len(dc.getkey_log) != n_before:
+                continue      # the key came from the DC, not from the cache: C09 does not apply (C17)
+            kid = DPAPINGBlob.unpack(blob).key_identifier
+            row.update(l0=kid.l0, l1=kid.l1, l2=kid.l2)
+        except taps.BudgetExceeded:
+            row["res"] = "budget"
+        except Exception as e:  # noqa
+            row["res"] = "error:" + type(e).__name__
+        rows.append(row)
+        ctx.distinct(("seed-source", l0, a, b, skew))
+    return rows
+
+
 def run(ctx: Ctx) -> int:
     import dpapi_ng
     import dpapi_ng._client as client
@@ -64,9 +114,19 @@ def run(ctx: Ctx) -> int:
     inst = _instants(ctx)
     for i, (kind, ft) in enumerate(inst):
         unix_ns = (ft - EPOCH) * 100 + ctx.rng.randrange(100)
-        row = {"id": i, "kind": kind, "t": limbs(ft), "l0": -1, "l1": -1, "l2": -1, "res": "blob", "flavour": "sync"}
+        # a running clock: every read returns a later value (1 tick = 100 ns per read for a third of the cases, so that a
+        # boundary can fall between two reads of one call); t / t2 are the first and last values the call saw
+        step = 100 if i % 3 == 0 else 0
+        reads: list[int] = []
+
+        def now_ns(base=unix_ns, step=step, reads=reads) -> int:
+            v = base + step * len(reads)
+            reads.append(v)
+            return v
+
+        row = {"id": i, "kind": kind, "t": limbs(ft), "t2": limbs(ft), "l0": -1, "l1": -1, "l2": -1, "res": "blob", "flavour": "sync"}
         try:
-            with taps.clock(client, unix_ns), taps.KdfTap(budget=300, record=False):
+            with taps.clock(client, now_ns), taps.KdfTap(budget=300, record=False):
                 if i % 7 == 3:
                     row["flavour"] = "async"
                     blob = asyncio.run(dpapi_ng.async_ncrypt_protect_secret(b"x", SID, root_key_identifier=rkid, cache=cache))
@@ -74,6 +134,8 @@ def run(ctx: Ctx) -> int:
                     blob = dpapi_ng.ncrypt_protect_secret(b"x", SID, root_key_identifier=rkid, cache=cache)
             kid = DPAPINGBlob.unpack(blob).key_identifier
             row.update(l0=kid.l0, l1=kid.l1, l2=kid.l2)
+            if reads:
+                row["t"], row["t2"] = limbs(reads[0] // 100 + EPOCH), limbs(reads[-1] // 100 + EPOCH)
         except taps.BudgetExceeded:
             row["res"] = "budget"
         except Exception as e:  # noqa
@@ -83,6 +145,7 @@ def run(ctx: Ctx) -> int:
         if len(cache._seed_keys.get(rkid, {}).get(next(iter(cache._seed_keys.get(rkid, {})), b""), {})) > 64:
             cache = dpapi_ng.KeyCache()
             cache.load_key(ctx.rng.randbytes(64), rkid)
+    rows += _seed_envelope_source(ctx, len(rows))
     ctx.count(len(rows))
     bad, _ = validate(ctx, "TraceClock", "TraceClock.cfg", rows, chunk=20000, what="clock")
     by = {r["id"]: r for r in rows}
@@ -110,7 +173,7 @@ def selftest(ctx: Ctx) -> int:
     for i in range(30):
         ft = (372000 + i) * BASE + i
         idx = ft // BASE
-        row = {"id": i, "kind": "x", "t": limbs(ft), "l0": idx // 1024, "l1": idx // 32 % 32, "l2": idx % 32, "res": "blob", "flavour": "sync"}
+        row = {"id": i, "kind": "x", "t": limbs(ft), "t2": limbs(ft), "l0": idx // 1024, "l1": idx // 32 % 32, "l2": idx % 32, "res": "blob", "flavour": "sync"}
         good.append(row)
         b = dict(row)
         b["l2"] = (b["l2"] + 1) % 32
